@@ -806,6 +806,15 @@ def register(I):
             return some(ov)
         m.d[k] = KeyBox(a[1], a[2])
         if m.ty == "Cache":
+            # capacity pressure: moka's admission/eviction policy is over-approximated -- when the cache holds more
+            # entries than its capacity, any one entry (the new one included) may be the victim
+            cap = getattr(I.world, "cache_capacity", None) if I.world is not None else None
+            if cap is not None and len(m.d) > cap:
+                keys = list(m.d.keys())
+                victim = keys[I.path.choose(len(keys), "moka-victim")]
+                del m.d[victim]
+                if hasattr(I.world, "evictions"):
+                    I.world.evictions.append(victim)
             return UNIT
         return none()
 
@@ -1024,6 +1033,29 @@ def register(I):
         if y == 0:
             raise RustPanic("attempt to divide by zero")
         return -(-x // y)
+
+    @intr("std::f64::<impl f64>::fract", "std::f64::<impl f64>::abs", "std::f64::<impl f64>::trunc", "std::f64::<impl f64>::floor",
+          "std::f64::<impl f64>::is_finite", "std::f64::<impl f64>::is_nan")
+    def _f64(I, a, cc):
+        op = cc.norm.split("::")[-1]
+        x = a[0]
+        if is_sym(x):
+            if op == "abs":
+                return z3.If(x >= 0, x, -x)
+            tr = z3.If(x >= 0, z3.ToReal(z3.ToInt(x)), -z3.ToReal(z3.ToInt(-x)))
+            if op == "trunc":
+                return tr
+            if op == "floor":
+                return z3.ToReal(z3.ToInt(x))
+            if op == "fract":
+                return z3.simplify(x - tr)
+            if op == "is_finite":
+                return True
+            if op == "is_nan":
+                return False
+        import math
+        return {"fract": lambda: math.copysign(abs(x) - math.floor(abs(x)), x) if math.isfinite(x) else float("nan"), "abs": lambda: abs(x), "trunc": lambda: float(math.trunc(x)),
+                "floor": lambda: float(math.floor(x)), "is_finite": lambda: math.isfinite(x), "is_nan": lambda: x != x}[op]()
 
     @pat(r"^std::num::<impl (i|u)\w+>::(abs|pow|checked_add|checked_sub|checked_mul|saturating_sub|saturating_add|wrapping_add|wrapping_sub|min|max)$")
     def _num(I, a, cc):
